@@ -36,11 +36,9 @@ def levels(tier):
     return [
         {"name": "long-n3", "n": 3, "prelude": [["we", [[0, 3]]]], "alphabet": ["page", "links", "we"], "links_batch": 1, "defaults": ["never", "domain"],
          "pools": LONGPOOLS + [[{"hosts": 2}, {"extend": 0, "pathL": [220]}, {"extend": 0, "pathL": [1, 71]}]]},
-        {"name": "n2", "n": 2, "alphabet": alpha + ["rule"], "links_batch": 2, "batch_targets": 2, "defaults": ["domain", "never", "path1"],
-         "rule_patterns": ["path1"], "we_two_prefixes": True},
-        {"name": "n3", "n": 3, "alphabet": alpha, "links_batch": 1, "batch_targets": 1, "defaults": ["domain", "never"]},
-        {"name": "tpl-n3", "n": 3, "prelude": [["batch", 0, [1, 2, 3]], ["page", 2, True]],
-         "alphabet": ["we", "addprefix", "moveprefix", "delwe"], "defaults": ["never", "domain"], "we_two_prefixes": True},
+        {"name": "n2-wide", "n": 2, "alphabet": alpha + ["rule"], "links_batch": 1, "batch_targets": 1, "defaults": ["domain", "never"], "rule_patterns": ["path1"]},
+        {"name": "n3", "n": 3, "alphabet": ["page", "we", "addprefix", "batch"], "batch_targets": 1, "defaults": ["never"], "pool": POOL[:3]},
+        {"name": "tpl-n3", "n": 3, "prelude": [["batch", 0, [1, 2, 3]], ["page", 2, True]], "alphabet": ["we", "addprefix", "moveprefix", "delwe"], "defaults": ["never"]},
     ]
 
 
